@@ -174,6 +174,13 @@ class Resources:
         pattern = re.compile(r"^(\d+:)?(\d{2}:)?\d{2}:\d{2}$")
         return bool(pattern.match(time))
 
+    @staticmethod
+    def _wall_time_to_seconds(time: str) -> int:
+        """Duration in seconds of a wall time string ``[[D:]HH:]MM:SS``."""
+        parts = [int(part) for part in time.split(":")]
+        days, hours, minutes, seconds = [0] * (4 - len(parts)) + parts
+        return ((days * 24 + hours) * 60 + minutes) * 60 + seconds
+
     def to_slurm_options(self) -> str:
         """Convert the Resources instance to SLURM options.
 
@@ -274,11 +281,10 @@ class Resources:
                 if current_memory_gb > max_memory_gb:
                     max_data["memory"] = resources.memory
             if resources.time is not None:
-                max_data["time"] = (
-                    resources.time
-                    if max_data["time"] is None
-                    else max(max_data["time"], resources.time)
-                )
+                if max_data["time"] is None or Resources._wall_time_to_seconds(
+                    resources.time,
+                ) > Resources._wall_time_to_seconds(max_data["time"]):
+                    max_data["time"] = resources.time
             if resources.partition is not None:
                 max_data["partition"] = resources.partition
 
